@@ -105,7 +105,7 @@ class Ctx:
             return
         d = self.replay_dir()
         if input_text is not None:
-            (d / "input.sd").write_text(input_text)
+            (d / "input.sd").write_bytes(input_text.encode("utf-8", errors="surrogateescape"))
         (d / "replay.json").write_text(json.dumps({
             "property": self.pid, "leg": leg, "what": what, "details": details or {},
             "seed": self.seed, "tier": self.tier,
@@ -282,7 +282,7 @@ def replay(ctx, mod, path):
     p = Path(path)
     inp = p / "input.sd" if p.is_dir() else p
     if inp.exists() and inp.suffix == ".sd":
-        src = inp.read_text()
+        src = inp.read_bytes().decode("utf-8", errors="replace")
         r = core.run_cli(src)
         print(json.dumps(r, indent=1))
         if hasattr(mod, "oracle_one"):
